@@ -84,6 +84,10 @@ type TimeoutCase struct {
 	// (the deadline is the parent's, the context itself is only
 	// cancellable).
 	Shape string `json:"shape,omitempty"`
+	// GuardLoops (with ErrBranch, not AsGuard): the branch that handles
+	// the action's timeout has a guard that does not terminate either -
+	// it runs when the context has already ended
+	GuardLoops bool `json:"guardLoops,omitempty"`
 }
 
 func genTimeout(t *rapid.T) TimeoutCase {
@@ -107,6 +111,7 @@ func genTimeout(t *rapid.T) TimeoutCase {
 		c.AsGuard = rapid.IntRange(0, 3).Draw(t, "guard") == 0
 		c.ErrBranch = rapid.Bool().Draw(t, "eb")
 		c.ErrNode = rapid.SampledFrom([]string{"", "aerr"}).Draw(t, "en")
+		c.GuardLoops = !c.AsGuard && c.ErrBranch && rapid.Bool().Draw(t, "guardLoops")
 	}
 	return c
 }
@@ -139,6 +144,9 @@ func timeoutSpec(src string, c TimeoutCase) (*core.Spec, error) {
 				{Pattern: map[string]interface{}{"actionError": "?e"}, Target: "handled"},
 				{Target: "done"}}}}
 		spec.Nodes["handled"] = &core.Node{}
+		if c.GuardLoops {
+			spec.Nodes["start"].Branches.Branches[0].GuardSource = &core.ActionSource{Interpreter: "ecmascript", Source: src}
+		}
 	}
 	err := spec.Compile(context.Background(), core.InterpretersMap{"ecmascript": interp}, true)
 	return spec, err
@@ -228,6 +236,10 @@ func checkTimeout(c TimeoutCase) (v ev.Verdict) {
 				wantNode := ""
 				switch {
 				case c.AsGuard:
+					wantNode = "error"
+					text, _ = to.Bs["error"].(string)
+				case c.ErrBranch && c.GuardLoops:
+					// the handling branch's guard times out as well
 					wantNode = "error"
 					text, _ = to.Bs["error"].(string)
 				case c.ErrBranch:
